@@ -1326,3 +1326,14 @@ PROOF_MODULES = PROOF_MODULES + ['Compute.Lemmas.NormRounding', 'Compute.Props.R
 REQUIRED_THEOREMS = REQUIRED_THEOREMS + ['Cv.Rounding2.normL_error', 'Cv.Rounding2.normL_error_idem', 'Cv.Rounding2.infNormL_error']
 NOT_PROVED = [x for x in NOT_PROVED if not any(k in str(x) for k in ('rounding bounds for norm, inf_norm, logsumexp',))]
 NOT_PROVED = NOT_PROVED + ['rounding of logsumexp / logmeanexp (oracle only); norm and inf_norm bounds ARE proved in the standard model with a sqrt of relative error <= u (Props/Rounding2)']
+
+# --- deep theorems (Rounding3)
+PROOF_MODULES = PROOF_MODULES + ['Compute.Lemmas.LogRounding', 'Compute.Props.Rounding3']
+REQUIRED_THEOREMS = REQUIRED_THEOREMS + ['Cv.Rounding3.logsumexp_error', 'Cv.Rounding3.logmeanexp_error', 'Cv.Rounding3.shiftedExpSum_near', 'Cv.Rounding3.f64_logsumexp_note']
+NOT_PROVED = [x for x in NOT_PROVED if not any(k in str(x) for k in ('rounding of logsumexp',))]
+
+# --- source tie, loops (tools/rs2lean.py loops=True: accumulation loops and iterator chains regenerated from /repo/src into
+# Generated/SrcC04Loops.lean and proved equal to the hand model in Props/SrcTieC04Loops.lean)
+from . import srctie
+srctie.wire_loops(globals(), 'C04')
+PROOF_MODULES = PROOF_MODULES + ['Compute.Lemmas.SrcLoops']
